@@ -30,11 +30,11 @@ theorem kdf_params :
     (Gen.type8SaltLen = 14 ∧ Gen.type9SaltLen = 14 ∧ Gen.type5SaltLen = 4) := by decide
 
 /-- The table behind `b64table`: both alphabets have 64 distinct symbols, the first is the RFC 4648
-alphabet `base64.b64encode` writes, and the translation sends the i-th standard symbol to the i-th
+alphabet `base64.b64encode` writes, the second is Cisco's `./0-9A-Za-z`, and the translation sends the i-th standard symbol to the i-th
 Cisco symbol — a bijection between the two 64-symbol sets. -/
 theorem b64_translation_bijective :
     Gen.stdB64.length = 64 ∧ Gen.ciscoB64.length = 64 ∧ Gen.stdB64.Nodup ∧ Gen.ciscoB64.Nodup ∧
-    Gen.stdB64 = b64Rfc ∧
+    Gen.stdB64 = b64Rfc ∧ Gen.ciscoB64 = ciscoRef ∧
     Gen.stdB64.map (fun n => (translate (Char.ofNat n)).toNat) = Gen.ciscoB64 ∧
     (∀ a ∈ Gen.stdB64, ∀ b ∈ Gen.stdB64,
       translate (Char.ofNat a) = translate (Char.ofNat b) → a = b) ∧
